@@ -166,7 +166,7 @@ class TokenStream:
                 return ret_val
             else:
                 ret_val = self._source[self._start_pos:new_line_pos]
-                if ret_val and not ret_val.isspace():
+                if ret_val.strip(self._lexer.whitespace):
                     self._source_io.seek(new_line_pos + additional)
                     self._head_syntax_error_description = None
                     self.consume()
